@@ -171,7 +171,7 @@ pub fn record(seed: u64, tier: &str, out_path: &str) {
                     0..=1 => { let pos = rng.range(1, 4); json!({"k": "flip", "pos": pos, "bit": rng.below(8)}) }
                     2 => { let pos = rng.range(1, 4); json!({"k": "set", "pos": pos, "val": rng.below(256)}) }
                     3..=6 => { let pos = rng.range(5, len_now.max(5) as u64); json!({"k": "flip", "pos": pos, "bit": 0, "rbit": rng.below(8)}) }
-                    7..=8 => { let l = rng.below(len_now as u64); len_now = l as usize; json!({"k": "trunc", "len": l}) }
+                    7..=8 => { let l = rng.below(len_now.max(1) as u64); len_now = l as usize; json!({"k": "trunc", "len": l}) }
                     _ => json!({"k": "ext", "n": *rng.pick(&[1u64, 16])}),
                 };
                 let pos_ok = op["k"] != "flip" && op["k"] != "set" || (op["pos"].as_u64().unwrap() as usize) <= len_now;
